@@ -391,6 +391,7 @@ func finish(rep *Report, verif string, db *ContractDB, t0 time.Time) int {
 	type failure struct {
 		name, detail, script string
 		model                bool
+		concrete             bool
 		ob                   *Obligation
 	}
 	var fails []failure
@@ -446,7 +447,7 @@ func finish(rep *Report, verif string, db *ContractDB, t0 time.Time) int {
 		fails = append(fails, failure{name: "engine:" + e, detail: e})
 	}
 	for _, o := range rep.StructFails {
-		fails = append(fails, failure{name: o.Name, detail: "structural obligation failed (" + o.Src + "): " + o.Detail})
+		fails = append(fails, failure{name: o.Name, detail: "structural obligation failed (" + o.Src + "): " + o.Detail, concrete: o.Concrete})
 	}
 	nObs := len(rep.Obs) - covers
 	// zero obligations is vacuous success: refuse
@@ -482,7 +483,7 @@ func finish(rep *Report, verif string, db *ContractDB, t0 time.Time) int {
 			os.WriteFile(sp, []byte(f.script), 0o644)
 			body += "\nSMT query: " + sp + "\n"
 		}
-		replayed := false
+		replayed := f.concrete
 		if f.model && f.ob != nil && f.ob.Replay != nil && rep.L != nil {
 			if note, ok := replayScalar(rep.L, f.ob, replayDir); ok {
 				body += "\nreplay against the real code:\n" + note + "\n"
